@@ -1,5 +1,6 @@
 import Driver.Util
 import Driver.X86
+import Driver.Arm
 namespace Driver
 
 def dispatch (line : String) : String :=
@@ -11,6 +12,12 @@ def dispatch (line : String) : String :=
     let v : Verdict := match tag with
       | "x86br" => handleX86Br args obs
       | "x86bool" => handleX86Bool args obs
+      | "a64emit" => handleA64Emit args obs
+      | "a64tramp" => handleA64Tramp args obs
+      | "a64bool" => handleA64Bool args obs
+      | "a64entry" => handleA64Entry args obs
+      | "a64long" => handleA64Long args obs
+      | "a32patch" => handleA32Patch args obs
       | _ => bad ("unknown-tag:" ++ tag)
     v.render
 
